@@ -19,6 +19,7 @@ POOL = ['s0', 's1', 's2', 's3', 's4']
 TRIGGERS = ['e0', 'e1', 'e2', 'e3']
 CONDS = ['c0', 'c1', 'c2']
 CBS = ['cb0', 'cb1', 'cb2']
+ATTR = 'status'                      # the custom model_attribute used by generated cases
 RETRIG = ['cb5', 'cb6', 'cb7']      # state / transition callbacks that fire an event on the same model
 
 
@@ -53,6 +54,8 @@ def text_tokens(s):
     m = re.match(r'^L(\d+)$', s)
     if m:
         return (1, int(m.group(1)))
+    if s.startswith('to_' + ATTR + '_'):       # auto trigger of a machine with a custom model_attribute
+        return (2,) + path_of(s[len(ATTR) + 4:])
     if s.startswith('to_'):
         return (2,) + path_of(s[3:])
     m = re.match(r'^s(\d+)$', s)
@@ -301,6 +304,9 @@ def gen_case(rng, nested):
         'conds': {c: rng.random() < 0.8 for c in CONDS},
         'n_models': rng.choice([1, 1, 2]),
         'queued': rng.random() < 0.25,
+        'locked': rng.random() < 0.15,
+        'model_attr': 'custom' if rng.random() < 0.35 else 'default',
+        'own_state': rng.random() < 0.5,       # with a custom attribute: the model carries an unrelated `state`
         'retrig': {},
         'ops': [],
     }
@@ -332,9 +338,14 @@ def gen_case(rng, nested):
     cur_names = list(names)
     cur_tops = list(tops)
     known = list(case['transitions'])
+    n_models = case['n_models']
     for _ in range(n_ops):
         r = rng.random()
-        mi = rng.randrange(case['n_models'])
+        mi = rng.randrange(n_models)
+        if not case['enum'] and n_models < 3 and rng.random() < 0.06:
+            case['ops'].append(['add_model', rng.choice([None] + cur_tops)])
+            n_models += 1
+            continue
         if r < 0.72 or case['enum'] and r < 0.9:
             if case['opts']['auto_transitions'] and rng.random() < 0.3:
                 ev = 'to_' + rng.choice(cur_names)
@@ -390,11 +401,13 @@ def flatten_state(state):
 _CLS_CACHE = {}
 
 
-def machine_class(nested):
-    if nested in _CLS_CACHE:
-        return _CLS_CACHE[nested]
-    from transitions.extensions import GraphMachine, HierarchicalGraphMachine
-    base = HierarchicalGraphMachine if nested else GraphMachine
+def machine_class(nested, locked=False):
+    if (nested, locked) in _CLS_CACHE:
+        return _CLS_CACHE[(nested, locked)]
+    from transitions.extensions import (GraphMachine, HierarchicalGraphMachine, LockedGraphMachine,
+                                        LockedHierarchicalGraphMachine)
+    base = ((LockedHierarchicalGraphMachine if locked else HierarchicalGraphMachine) if nested
+            else (LockedGraphMachine if locked else GraphMachine))
 
     class LabelState(base.state_cls):
         def __init__(self, *args, **kwargs):
@@ -404,7 +417,7 @@ def machine_class(nested):
     class LabelMachine(base):
         state_cls = LabelState
 
-    _CLS_CACHE[nested] = LabelMachine
+    _CLS_CACHE[(nested, locked)] = LabelMachine
     return LabelMachine
 
 
@@ -453,38 +466,44 @@ class Run(object):
         conds = case['conds']
 
         run = self
+        self.attr = ATTR if case.get('model_attr') == 'custom' else 'state'
+        attr = self.attr
 
-        class Model(object):
+        def _get(obj):
+            return obj.__dict__['_machine_state']
+
+        def _set(obj, value):
             # every assignment of the state attribute is recorded: the transition in progress (innermost) at that
             # moment is the last executed transition — independent of what the graph code was told
-            @property
-            def state(self):
-                return self._state
-
-            @state.setter
-            def state(self, value):
-                self._state = value
-                run._assigned(self)
+            obj.__dict__['_machine_state'] = value
+            run._assigned(obj)
+        body = {attr: property(_get, _set)}
+        if attr != 'state' and case.get('own_state'):
+            body['state'] = 'Texas'          # the model uses `state` for its own data
         for c in CONDS:
-            setattr(Model, c, (lambda v: (lambda self, *a, **k: v))(conds[c]))
+            body[c] = (lambda v: (lambda self, *a, **k: v))(conds[c])
         for c in CBS + RETRIG:
-            setattr(Model, c, lambda self, *a, **k: None)
+            body[c] = lambda self, *a, **k: None
         for c, ev in case.get('retrig', {}).items():
-            setattr(Model, c, (lambda e: (lambda self, *a, **k: run._retrigger(self, e)))(ev))
+            body[c] = (lambda e: (lambda self, *a, **k: run._retrigger(self, e)))(ev)
+        self.model_cls = type('Model', (object,), body)
         self.models = []
         self.stack = {}
         self.budget = 0
-        self.models = [Model() for _ in range(case['n_models'])]
+        self.models = [self.model_cls() for _ in range(case['n_models'])]
         self.stack = {i: [] for i in range(len(self.models))}
         self.steps = {i: [] for i in range(len(self.models))}
         self.last_src = {i: None for i in range(len(self.models))}     # (scope prefix path, stored source path)
-        cls = machine_class(self.nested)
+        # open finding F-C16-locked-hierarchical-phantom: names (read at the root) of the children of compound states
+        # added later to a Locked hierarchical graph machine (which does not derive from HierarchicalMarkupMachine)
+        self.phantom = []
+        cls = machine_class(self.nested, bool(case.get('locked')))
         o = case['opts']
         kw = dict(model=self.models, transitions=[trans_arg(t) for t in case['transitions']],
                   graph_engine='mermaid', show_conditions=o['show_conditions'],
                   show_auto_transitions=o['show_auto'], show_state_attributes=o['show_attrs'],
                   auto_transitions=o['auto_transitions'], ignore_invalid_triggers=True, send_event=True,
-                  queued=bool(case.get('queued')),
+                  queued=bool(case.get('queued')), model_attribute=self.attr,
                   before_state_change=self._before, after_state_change=self._after)
         if case['enum']:
             en = enum.Enum('States', [s['name'] for s in case['states']])
@@ -494,7 +513,25 @@ class Run(object):
             kw['states'] = [state_arg(s) for s in case['states']]
             kw['initial'] = case['initial']
         self.machine = cls(**kw)
-        self.cur0 = {i: flatten_state(m.state) for i, m in enumerate(self.models)}
+        self.cur0 = {i: self.snapshot(m) for i, m in enumerate(self.models)}
+
+    def state_of(self, model):
+        return getattr(model, self.attr)
+
+    def cur(self, mi):
+        return flatten_state(self.state_of(self.models[mi]))
+
+    def snapshot(self, model):
+        """the attributes of the model object that hold or look like a state: [(attribute code, names)];
+        0 = 'state', 1 = the custom attribute; an unrelated own `state` value is the unknown name [99]"""
+        snap = []
+        if self.attr == 'state':
+            snap.append((0, flatten_state(model.state)))
+        else:
+            if hasattr(model, 'state'):
+                snap.append((0, [(99,)]))
+            snap.append((1, flatten_state(self.state_of(model))))
+        return snap
 
     def _idx(self, model):
         return next(i for i, m in enumerate(self.models) if m is model)
@@ -515,7 +552,7 @@ class Run(object):
         i = self._idx(event_data.model)
         pre, src, dst = self.stack[i].pop()
         if dst is not None:
-            self.steps[i].append(('finish', flatten_state(event_data.model.state)))
+            self.steps[i].append(('finish', self.snapshot(event_data.model)))
 
     def _assigned(self, model):
         if model not in self.models:
@@ -526,6 +563,10 @@ class Run(object):
             if dst is not None:
                 self.last_src[i] = (pre, path_of(src))
 
+    def _note_phantom(self, st):
+        if self.nested and self.case.get('locked'):
+            self.phantom += [path_of(p) for c in st['children'] for p in rel_paths(c)]
+
     def _retrigger(self, model, ev):
         if self.budget > 0:
             self.budget -= 1
@@ -533,7 +574,7 @@ class Run(object):
 
     def regen_all(self):
         for i, m in enumerate(self.models):
-            self.steps[i].append(('regen', flatten_state(m.state)))
+            self.steps[i].append(('regen', self.snapshot(m)))
             self.last_src[i] = None
 
     def apply(self, op):
@@ -546,7 +587,19 @@ class Run(object):
                 self.budget = 3
                 for st in self.stack.values():
                     del st[:]
-                self.models[op[1]].trigger(op[2])
+                ev = op[2]
+                if ev.startswith('to_') and self.attr != 'state':
+                    ev = 'to_%s_%s' % (self.attr, ev[3:])
+                self.models[op[1]].trigger(ev)
+            elif kind == 'add_model':
+                m = self.model_cls()
+                i = len(self.models)
+                self.stack[i] = []
+                self.steps[i] = []
+                self.last_src[i] = None
+                self.models.append(m)
+                self.machine.add_model(m, initial=op[1])
+                self.cur0[i] = self.snapshot(m)
             elif kind == 'add_states':
                 args = []
                 for it in op[1]:
@@ -562,12 +615,15 @@ class Run(object):
                         parent['children'].append({'name': it['leaf'], 'label': None, 'final': False, 'enter': [],
                                                    'exit': [], 'initial': None, 'parallel': False, 'children': [],
                                                    'transitions': []})
+                        self._note_phantom(parent)       # the machine was scoped into the parent
                     else:
                         self.states.append(copy.deepcopy(it))
+                        self._note_phantom(it)
                 self.regen_all()
             elif kind == 'add_state':
                 self.machine.add_states(state_arg(op[1]))
                 self.states.append(copy.deepcopy(op[1]))
+                self._note_phantom(op[1])
                 self.regen_all()
             elif kind == 'add_transition':
                 self.machine.add_transition(**trans_arg(op[1]))
@@ -651,24 +707,28 @@ def enc_state(st, pre, rows):
             + enc_list([r for r in rows if r['pre'] == me], enc_row))
 
 
+def enc_obj(snap):
+    return enc_list(snap, lambda av: [av[0]] + enc_list(av[1], enc_nats))
+
+
 def enc_step(s):
     if s[0] == 'begin':
         return [0] + enc_nats(s[1]) + enc_nats(s[2]) + enc_nats(s[3])
     if s[0] == 'finish':
-        return [1] + enc_list(s[1], enc_nats)
-    return [2] + enc_list(s[1], enc_nats)
+        return [1] + enc_obj(s[1])
+    return [2] + enc_obj(s[1])
 
 
 def enc_request(run, mi, roi):
     o = run.case['opts']
     rows = run.table()
-    req = [int(run.nested), int(o['show_conditions']), int(o['show_attrs'])]
+    req = [int(run.nested), int(o['show_conditions']), int(o['show_attrs']), 0 if run.attr == 'state' else 1]
     req += enc_list(run.states, lambda s: enc_state(s, (), rows))
     req += enc_list([r for r in rows if r['pre'] == ()], enc_row)
     req += enc_opt(path_of(run.case['initial']), enc_nats)
-    req += enc_list(run.cur0[mi], enc_nats)
+    req += enc_obj(run.cur0[mi])
     req += enc_list(run.steps[mi], enc_step)
-    req += enc_opt(flatten_state(run.models[mi].state) if roi else None, lambda c: enc_list(c, enc_nats))
+    req += enc_opt(run.snapshot(run.models[mi]) if roi else None, enc_obj)
     return req
 
 
@@ -729,6 +789,23 @@ def decode_diagram(ans):
 # the oracle: the clauses of C16 stated directly on the parsed diagram and the live machine
 # ---------------------------------------------------------------------------------------------
 
+SIG_LOCKED_PHANTOM = 'C16.add_states.compound-phantom-states.locked-hierarchical'
+
+
+def phantom_states(run, d):
+    """declared names beyond the machine's states that are children (read as root names) of a compound state added
+    with add_states to a Locked hierarchical graph machine after the model was registered (open finding)"""
+    if not run.phantom:
+        return []
+    extra = [n.name for n, _ in d.all]
+    for p in desc_index(run.states):
+        if p in extra:
+            extra.remove(p)
+    if extra and all(p in run.phantom for p in extra):
+        return sorted(set(extra))
+    return []
+
+
 def desc_index(states, pre=()):
     """{path: (state description, parent path or None)}"""
     out = {}
@@ -763,6 +840,10 @@ def oracle_full(run, mi, d):
     """clauses on the full diagram `d` (Parsed) of model `mi`; returns [(what, details, signature)]"""
     fails = []
     idx = desc_index(run.states)
+    ph = phantom_states(run, d)
+    if ph:
+        # the markup itself carries a stale root 'children' key: nothing else can be judged on this diagram
+        return [('phantom-states', {'phantom': [name_of(p) for p in ph]}, SIG_LOCKED_PHANTOM)]
     # -- every state declared exactly once, children inside their parents, regions separated
     declared = [n.name for n, _ in d.all]
     if sorted(declared) != sorted(idx):
@@ -825,7 +906,7 @@ def oracle_edges(run, d, exp, exact):
 
 def oracle_activity(run, mi, d):
     fails = []
-    cur = set(flatten_state(run.models[mi].state))
+    cur = set(run.cur(mi))
     allowed_active = closure(cur)
     last = run.last_src[mi]
     last_global = (last[0] + last[1]) if last else None
@@ -851,15 +932,19 @@ def oracle_roi(run, mi, d):
     """`d`: Parsed ROI view"""
     fails = []
     idx = desc_index(run.states)
-    cur = closure(flatten_state(run.models[mi].state))
+    cur = closure(run.cur(mi))
     declared = set(n.name for n, _ in d.all)
     miss = sorted(name_of(p) for p in cur if p in idx and p not in declared)
     if miss:
         fails.append(('roi-active-missing', {'missing': miss}, 'C16.roi.active'))
     rows = [r for r in run.table() if (r['pre'] + r['src']) in cur]
     exp = expected_labels(rows, run.case['opts']['show_conditions'])
+    ph = set(name_of(p) for p in run.phantom)
     for w, det, sig in oracle_edges(run, d, exp, exact=False):
-        fails.append(('roi-' + w, det, sig.replace('C16.edges', 'C16.roi.edges')))
+        sig = sig.replace('C16.edges', 'C16.roi.edges')
+        if w == 'edge-label' and det['edge'][0] in ph and all(x in det['labels'] for x in det['expected']):
+            sig = SIG_LOCKED_PHANTOM      # extra labels from the stale markup (open finding)
+        fails.append(('roi-' + w, det, sig))
     for (s, t) in exp:
         if t in idx and t not in declared:
             fails.append(('roi-target-missing', {'edge': [name_of(s), name_of(t)]}, 'C16.roi.target'))
